@@ -6,9 +6,7 @@
 package main
 
 import (
-	ejson "encoding/json"
 	"fmt"
-	"regexp"
 	"strings"
 
 	"google.golang.org/protobuf/internal/encoding/json"
@@ -16,11 +14,6 @@ import (
 )
 
 type C = vh.Ctx
-
-const (
-	sigExp      = "json-exponent-without-digits"
-	sigLeadZero = "json-int-leading-zero-fraction-guard"
-)
 
 func main() { vh.Main("jsonlex", run) }
 
@@ -41,23 +34,6 @@ type In struct {
 	Hex  string `json:"hex"`           // the input bytes
 	Text string `json:"text"`          // the same, for the reader (quoted Go string)
 	Arg  string `json:"arg,omitempty"` // extra argument (field name, bit size, indent, op list)
-}
-
-// known counts failures that carry a classifier signature: only the first two per signature
-// are recorded as failures (vh stops a run after 200 failures, and a known finding occurs thousands
-// of times in an exhaustive enumeration); the rest is counted in the histogram.
-var knownSeen = map[string]int{}
-
-func fail(c *C, what string, input any, sig string) {
-	if sig != "" {
-		k := sig
-		knownSeen[k]++
-		c.Hist("sig:" + sig)
-		if knownSeen[k] > 2 {
-			return
-		}
-	}
-	c.Check(false, what, input, sig)
 }
 
 func in(kind string, b []byte, arg string) In {
@@ -145,36 +121,4 @@ func implParseString(b []byte) string {
 		return "notstring"
 	}
 	return fmt.Sprintf("ok %s %d", vh.Hex([]byte(tok.ParsedString())), len(tok.RawString()))
-}
-
-// ---------- classifier of DESIGN finding 4 ----------
-
-var danglingExp = regexp.MustCompile(`^-?(0|[1-9][0-9]*)(\.[0-9]+)?[eE][+-]?$`)
-
-// repairDangling appends a digit to every number token that ends in an exponent marker/sign.
-// It returns the repaired document and how many tokens were repaired.
-func repairDangling(b []byte, toks []tokInfo) ([]byte, int) {
-	out := append([]byte(nil), b...)
-	n := 0
-	for i := len(toks) - 1; i >= 0; i-- {
-		t := toks[i]
-		if t.kind == json.Number && danglingExp.MatchString(t.raw) {
-			end := t.pos + len(t.raw)
-			out = append(out[:end], append([]byte("0"), out[end:]...)...)
-			n++
-		}
-	}
-	return out, n
-}
-
-// sigInvalidAccepted classifies an input that the implementation accepted although
-// encoding/json.Valid rejects it: finding 4 iff giving every dangling exponent a digit makes the
-// document valid (so that any other defect in the same document is still reported).
-func sigInvalidAccepted(b []byte) string {
-	_, _, toks := implTokens(b)
-	rep, n := repairDangling(b, toks)
-	if n > 0 && ejson.Valid(rep) {
-		return sigExp
-	}
-	return ""
 }
